@@ -215,6 +215,27 @@ class CandleMonitor:
         if strats:
             st = strats[sorted(strats)[0]]
             self.check_all(c, st, 'finish', True)
+            # the candle-generation helper used by research code, on the same stored 1m candles (ride-along:
+            # a pure function, compared in passing)
+            try:
+                from jesse.services.candle import _get_generated_candles
+                from jesse.store import store as _st
+                for (sym, tf) in self.pairs:
+                    if tf == '1m':
+                        continue
+                    s1 = np.array(_st.candles.get_candles(self.ex, sym, '1m'), copy=True)
+                    m = TF_MIN[tf]
+                    nfull = len(s1) // m
+                    if nfull == 0:
+                        continue
+                    got = np.asarray(_get_generated_candles(tf, s1))
+                    want = np.array([CG.aggregate(s1[k * m:(k + 1) * m]) for k in range(nfull)])
+                    c.count('c07_helper_checks')
+                    if got.shape != want.shape or not np.array_equal(got, want):
+                        c.violate('C07', 'helper-differs', f'C07|generated-candles-helper-differs|tf={tf}',
+                                  {'symbol': sym, 'tf': tf, 'got_shape': list(got.shape), 'want_shape': list(want.shape)})
+            except Exception as e:
+                c.violate('C07', 'helper-raised', f'C07|generated-candles-helper-raised|{type(e).__name__}', {'exc': repr(e)})
             # after the run every 1m candle of the input must be there
             from jesse.store import store
             for sym in self.inp:
